@@ -102,3 +102,23 @@ impl CKKSInfos for CKKSMeta {
         self.log_budget
     }
 }
+
+/// Verification hooks (cargo feature `verif-hooks`): public forwarding wrappers around the
+/// crate-private metadata helpers, so that a harness can run them on arbitrary metadata.
+#[cfg(feature = "verif-hooks")]
+pub mod verif_hooks {
+    use anyhow::Result;
+
+    pub fn checked_log_budget_sub(op: &'static str, available_log_budget: usize, required_bits: usize) -> Result<usize> {
+        crate::checked_log_budget_sub(op, available_log_budget, required_bits)
+    }
+    pub fn ensure_plaintext_alignment(op: &'static str, ct_log_budget: usize, pt_log_delta: usize, pt_max_k: usize) -> Result<usize> {
+        crate::ensure_plaintext_alignment(op, ct_log_budget, pt_log_delta, pt_max_k)
+    }
+    pub fn checked_mul_ct_log_budget(op: &'static str, lhs_log_budget: usize, rhs_log_budget: usize, lhs_log_delta: usize, rhs_log_delta: usize) -> Result<usize> {
+        crate::checked_mul_ct_log_budget(op, lhs_log_budget, rhs_log_budget, lhs_log_delta, rhs_log_delta)
+    }
+    pub fn checked_mul_pt_log_budget(op: &'static str, lhs_log_budget: usize, rhs_log_budget: usize, lhs_log_delta: usize, rhs_log_delta: usize) -> Result<usize> {
+        crate::checked_mul_pt_log_budget(op, lhs_log_budget, rhs_log_budget, lhs_log_delta, rhs_log_delta)
+    }
+}
